@@ -137,10 +137,7 @@ func init() {
 			}
 			classNames := []string{"num", "str", "date+datetime", "time", "qty"}
 			items := c05Items()
-			maxLen := 3
-			if tier == "thorough" {
-				maxLen = 4
-			}
+			maxLen := 4 // both tiers: 2800 collections over 7 items cost seconds
 			colls := allColls(len(items), maxLen)
 			return []core.Sub{
 				{Name: "pairs", N: len(pool), Note: fmt.Sprintf("%d values: all ordered pairs x 6 operators, reference + laws", len(pool)), Run: func(i int, r *core.Rec) {
